@@ -796,6 +796,9 @@ func (r *rewriter) selectStmt(x *ast.SelectStmt) []ast.Stmt {
 	}
 	out = append(out, &ast.IfStmt{Cond: &ast.BinaryExpr{X: sel, Op: token.LSS, Y: lit(0)}, Body: &ast.BlockStmt{List: fallback}})
 	out = append(out, r.yield("selected"))
+	// a default that panics keeps the switch a terminating statement whenever
+	// the original select was one
+	bodyCases = append(bodyCases, &ast.CaseClause{Body: []ast.Stmt{&ast.ExprStmt{X: &ast.CallExpr{Fun: ast.NewIdent("panic"), Args: []ast.Expr{&ast.BasicLit{Kind: token.STRING, Value: strconv.Quote("simrt: impossible select index")}}}}}})
 	out = append(out, &ast.SwitchStmt{Tag: sel, Body: &ast.BlockStmt{List: bodyCases}})
 	return out
 }
